@@ -113,17 +113,19 @@ def baseSegment (segment : Shape) (pt : Pt × Rat) : Shape :=
 
 /-- what the makers wrap around a returned segment: product-form makers (LUVOIR A, Keck) write
 `segment(grid) * spider1(grid) * …`, loop-form makers (ELT, TMT) `segment(grid) * spider_func(grid)` with
-`spider_func = grid.ones() * spider1 * …`; then `* (1 − circular(obs))` where there is an obscuration -/
+`spider_func = grid.ones() * spider1 * …` -/
+def spiderDecor (c : HexCfg) (b : Shape) : Shape :=
+  match c.spiders with
+  | [] => b
+  | q0 :: rest =>
+    if c.loop then Shape.mul b (spiderChain c.hw (q0 :: rest) (.const 1))
+    else spiderChain c.hw (q0 :: rest) b
+
+/-- … then `* (1 − circular(obs))` where there is an obscuration (TMT, Keck) -/
 def decorateSegment (c : HexCfg) (b : Shape) : Shape :=
-  let sp :=
-    match c.spiders with
-    | [] => b
-    | q0 :: rest =>
-      if c.loop then Shape.mul b (spiderChain c.hw (q0 :: rest) (.const 1))
-      else spiderChain c.hw (q0 :: rest) b
   match c.obs with
-  | none => sp
-  | some R => .mul sp (.compl (.disk R))
+  | none => spiderDecor c b
+  | some R => .mul (spiderDecor c b) (.compl (.disk R))
 
 /-- all segments of `return_segments=True` -/
 def HexCfg.segmentShapes (c : HexCfg) : List Shape :=
